@@ -394,6 +394,79 @@ def h_serial_silence(ctx, which, when, dt=False):
     return "%s:%s" % (when, kind_)
 
 
+def h_serial_cancel(ctx, which, dt=False):
+    """A healthy serial gateway (confirmation 20/50 ms after the write, answer 12 ms later).  The first send is
+    cancelled by its caller at a solver-chosen moment - before the write, while waiting for the confirmation,
+    while waiting for the answer - and after things have settled a second caller sends another query: it must
+    complete with its own answer within the documented time, and no lock may be left behind."""
+    import dali.gear.led as led
+    c1 = led.QueryFeatures(A.GearShort(1)) if dt else gg.QueryActualLevel(A.GearShort(1))
+    c2 = gg.QueryMaxLevel(A.GearShort(2))
+    v1, v2 = ctx.fresh("v1", 0, 255), ctx.fresh("v2", 0, 255)
+    when = ctx.fresh_choice("cancel_at", 9)          # multiples of 10 ms after the send started
+    confirmed1 = ctx.fresh_bool("first_confirmed")   # the gateway confirms the first frame (or loses it)
+    answered1 = ctx.fresh_bool("first_answered")     # the unit answers the first query (or the bus stays silent)
+    out = {}
+
+    async def main(loop):
+        d, p, t = (rigs.luba_driver if which == "luba" else rigs.sci_driver)(loop)
+        nwr = {"n": 0}
+
+        def gateway(data):
+            nwr["n"] += 1
+            if which == "luba":
+                nb = data[4] // 8
+                fb = data[6:6 + nb]
+                is_edt = nb == 2 and fb[0] == 0xC1
+                first = fb[0] == 0x03
+                val = v1 if first else v2
+                if confirmed1 or not first:
+                    loop.call_later(0.02, p.data_received, rigs.luba_event_tx(nwr["n"], fb))
+                if not is_edt and (not first or (answered1 and confirmed1)):
+                    loop.call_later(0.032, p.data_received, rigs.luba_event_rx([val]))
+            else:
+                is_edt = (data[0] & 0x0F) == 3 and data[1] == 0xC1
+                first = data[1] == 0x03
+                val = v1 if first else v2
+                if confirmed1 or not first:
+                    loop.call_later(0.02, p.data_received, rigs.sci_frame(0x10, 0, 0, 0))
+                if not is_edt and (not first or (answered1 and confirmed1)):
+                    loop.call_later(0.032, p.data_received, rigs.sci_frame(0x12, 0, 0, val))
+        t.on_write = gateway
+        t1 = asyncio.ensure_future(d.send(c1))
+        await asyncio.sleep(0.01 * when + 0.001)
+        t1.cancel()
+        await asyncio.sleep(1.0)
+        out["t1"] = _result(t1)
+        out["locked1"] = d.transaction_lock.locked() or p._tx_lock.locked()
+        t0 = loop.time()
+        t2 = asyncio.ensure_future(d.send(c2))
+        while not t2.done() and loop.time() - t0 < 5:
+            await asyncio.sleep(0.005)
+        out["elapsed"] = loop.time() - t0
+        out["t2"] = _result(t2)
+        out["locked"] = d.transaction_lock.locked() or p._tx_lock.locked()
+        if not t2.done():
+            t2.cancel()
+    st, r = call(vloop.run, main)
+    tag = "%s/cancel%s" % (which, "-dt" if dt else "")
+    if st == "exc":
+        ctx.fail("harness run raised %r" % (r,), key=tag + "/run-raised:" + type(r).__name__)
+        return "raised"
+    ctx.prove(not out["locked1"], "a lock stays taken after the cancelled send", key=tag + "/lock-after-cancel")
+    kind_, payload = out["t2"]
+    ctx.prove(kind_ != "pending", "the send after a cancelled one hangs", key=tag + "/hang")
+    ok = kind_ == "ok" and type(payload) is type(c2).response and payload.raw_value is not None \
+        and not payload.raw_value.error
+    ctx.prove(ok and E.eq(payload.raw_value.as_integer, v2),
+              "the send after a cancelled one gave %s %r instead of its own answer" % (kind_, payload),
+              key=tag + "/next-answer")
+    ctx.prove(out["elapsed"] <= 0.2, "the send after a cancelled one took %.3f s on a healthy gateway" % out["elapsed"],
+              key=tag + "/next-late")
+    ctx.prove(not out["locked"], "a lock was left held", key=tag + "/lock")
+    return "cancel@%d:%s" % (when, out["t1"][0])
+
+
 def cases(tier):
     inst = rigs.install_tridonic_structs
     cs = [Case("tridonic-cancel", h_tridonic_cancel, {}, install=inst)]
@@ -411,4 +484,7 @@ def cases(tier):
             cs.append(Case("%s-silent-%s" % (which, when), h_serial_silence, {"which": which, "when": when}))
             cs.append(Case("%s-silent-%s-dt" % (which, when), h_serial_silence,
                            {"which": which, "when": when, "dt": True}))
+    for which in ("luba", "sci"):
+        cs.append(Case("%s-cancel" % which, h_serial_cancel, {"which": which}))
+        cs.append(Case("%s-cancel-dt" % which, h_serial_cancel, {"which": which, "dt": True}))
     return cs
